@@ -46,9 +46,16 @@ AX = {"ne": [1e18, 1e19, 1e20], "te": [1.0, 10.0, 100.0], "td": [2.0, 20.0, 200.
       "eb": [1e3, 1e4, 1e5], "ti": [100.0, 1000.0, 5000.0], "ni": [1e18, 1e19, 1e20], "z": [1.0, 2.0, 4.0], "b": [1.0, 2.0, 4.0]}
 
 
+# Provider.tla lattice = "physical": same middle nodes, first / last nodes that are not powers of ten
+AX_PHYSICAL = {"ne": [1e15, 1e19, 2e21], "te": [0.2, 10.0, 5000.0], "td": [5.0, 20.0, 200.0],
+               "e": [5e2, 1e4, 2e5], "n": [1e15, 1e19, 2e21], "t": [5.0, 100.0, 5000.0],
+               "eb": [5e2, 1e4, 2e5], "ti": [20.0, 1000.0, 5000.0], "ni": [1e15, 1e19, 2e21], "z": [1.0, 2.0, 6.0], "b": [0.2, 2.0, 5.0]}
+_LATTICE = ["decades"]
+
+
 def axes_for(acc, shape):
     """shape = the axes stored as a single point (the middle one of the 3-point axis)"""
-    ax = {k: list(v) for k, v in AX.items()}
+    ax = {k: list(v) for k, v in (AX_PHYSICAL if _LATTICE[0] == "physical" else AX).items()}
     for k in ([] if shape == "full" else shape):
         ax[k] = [ax[k][1]]
     return ax
@@ -74,6 +81,7 @@ def populate(root, c):
     from cherab.openadas import repository as R
     acc = c["acc"]
     _DROP[0] = c.get("drop", "none")
+    _LATTICE[0] = c.get("lattice", "decades")
     ax = axes_for(acc, c["shape"])
     el, iso = _sp("element"), _sp("isotope")
     store = {}     # what the element key holds (for the expected value)
@@ -283,6 +291,7 @@ INVARIANT MissingPolicyUniform
 INVARIANT IsotopeUsesElementRates
 INVARIANT ExtrapOnlyOutside
 INVARIANT DropIrrelevant
+INVARIANT LatticeIrrelevant
 INVARIANT Species2Irrelevant
 INVARIANT EmitCase
 """
@@ -307,7 +316,7 @@ def run(v):
         # seed-stable thinning of the flag combinations for argument classes that do not depend on them
         import random
         rng = random.Random(v.seed)
-        keep = [r for r in cases if r["case"]["arg"][0] in ("grid", "nonpos") or not r["case"]["present"] or r["case"].get("drop", "none") != "none" or r["case"].get("species2") == "other" or rng.random() < 0.5]
+        keep = [r for r in cases if r["case"]["arg"][0] in ("grid", "nonpos") or not r["case"]["present"] or r["case"].get("drop", "none") != "none" or r["case"].get("species2") == "other" or r["case"].get("lattice", "decades") != "decades" or rng.random() < 0.5]
         if sum(1 for r in keep if r["case"].get("drop", "none") != "none") < 60:
             raise core.MachineryError("vacuity: sharp-drop tables missing")
         cases = keep
